@@ -1253,6 +1253,10 @@ func recoverC10(sc *CrashScenario, img vos.Image, info crashInfo, c *Collector) 
 	if mv := c10Check(fw, want); mv != nil {
 		mv.Oracle = "crash"
 		mv.Detail = "after resuming the interrupted upgrade: " + mv.Detail
+		if sc.Dropped {
+			// the legacy store had index entries whose primary data is gone
+			mv.Trigger = "upgrade-drops-entries+crash-in-upgrade"
+		}
 		return mv
 	}
 	for _, op := range []Op{P(2, 3), R(0), opF, {Kind: OpPriGC, A: 50}, {Kind: OpIdxGC, B: true}, {Kind: OpReads}, {Kind: OpReopen, A: 1}, {Kind: OpReads}} {
@@ -1276,7 +1280,7 @@ func c10CrashScenarios(tier string) []*CrashScenario {
 	for hi, hist := range legacyHistories(tier)[:3] {
 		for _, sz := range sizes {
 			for _, cut := range []int{0, 3} {
-				if tier == "quick" && cut != 0 && hi != 1 {
+				if tier == "quick" && cut != 0 && hi == 2 {
 					continue
 				}
 				ls, err := buildLegacy(8, hist, cut, true)
@@ -1284,7 +1288,7 @@ func c10CrashScenarios(tier string) []*CrashScenario {
 					continue
 				}
 				sc := &CrashScenario{Prop: "C10", Name: fmt.Sprintf("c10x/h%d/%d-%d/cut%d", hi, sz[0], sz[1], cut), Cfg: cfg("mh", false, 8, sz[0], sz[1]),
-					Depth: 0, Recover: recoverC10, Oracles: []string{"crash"}, Base: &ls.img, Want: ls.model, BaseKeys: ls.keys, BaseProbes: ls.probe}
+					Depth: 0, Recover: recoverC10, Oracles: []string{"crash"}, Base: &ls.img, Want: ls.model, BaseKeys: ls.keys, BaseProbes: ls.probe, Dropped: len(ls.lost) > 0}
 				scs = append(scs, sc)
 			}
 		}
